@@ -102,13 +102,13 @@ def units():
         dec = "%s_decode [(int) buffer [K]]" % law
         # decoders
         U.append(kunit(law, "%s2s_array" % law, "unsigned char *buffer, int count, short *ptr", "buffer", "ptr", "unsigned char", "short",
-                       "ptr [K] == %s" % dec, ["C20", "C02", "C19"], "C20.decoder_is_table_lookup", callargs="a, count, b"))
+                       "ptr [K] == %s" % dec, ["C20", "C02"], "C20.decoder_is_table_lookup", callargs="a, count, b"))
         U.append(kunit(law, "%s2i_array" % law, "unsigned char *buffer, int count, int *ptr", "buffer", "ptr", "unsigned char", "int",
-                       "ptr [K] == WIDEN ((int) %s, 16, 32)" % dec, ["C02", "C20", "C19"], "C02.int_read_is_short_read_widened", callargs="a, count, b"))
+                       "ptr [K] == WIDEN ((int) %s, 16, 32)" % dec, ["C02", "C20"], "C02.int_read_is_short_read_widened", callargs="a, count, b"))
         for h in ("f", "d"):
             cq = "const " if (law == "ulaw" and h == "d") else ""
             U.append(kunit(law, "%s2%s_array" % (law, h), "%sunsigned char *buffer, int count, %s *ptr, %s normfact" % (cq, CT[h], CT[h]),
-                           "buffer", "ptr", "unsigned char", CT[h], "ptr [K] == normfact * %s" % dec, ["C02", "C19"],
+                           "buffer", "ptr", "unsigned char", CT[h], "ptr [K] == normfact * %s" % dec, ["C02"],
                            "C02.float_read_is_decoded_value_times_normfact", extra_req="__CPROVER_requires (normfact > 0 && normfact <= 1)",
                            decl="\t%s normfact ;" % CT[h], callargs="a, count, b, normfact", backend="kissat", timeout=3600, src_q=cq,
                            tier="thorough"))
@@ -127,12 +127,12 @@ void h_unit (void)
                       "backend": "cvc5", "cbmc_flags": ["--unwind", "2"], "drop_flags": ["--slice-formula"], "timeout": 300, "tier": "quick"})
         # encoders
         U.append(kunit(law, "s2%s_array" % law, "const short *ptr, int count, unsigned char *buffer", "ptr", "buffer", "short", "unsigned char",
-                       "buffer [K] == %s" % enc_elem(law, "(int) ptr [K]"), ["C20", "C02", "C19"], "C20.encoder_element_function",
+                       "buffer [K] == %s" % enc_elem(law, "(int) ptr [K]"), ["C20", "C02"], "C20.encoder_element_function",
                        callargs="a, count, b", src_q="const "))
         rule_i = "buffer [K] == %s" % enc_elem(law, "NARROW (ptr [K], 32, 16)")
         # (a) non-negative samples and samples whose 16 low bits are zero: exactly the short path
         U.append(kunit(law, "i2%s_array" % law, "const int *ptr, int count, unsigned char *buffer", "ptr", "buffer", "int", "unsigned char",
-                       "(ptr [K] >= 0 || ((ptr [K] & 0xFFFF) == 0 && ptr [K] != (-2147483647 - 1))) ==> (%s)" % rule_i, ["C02", "C20", "C19"],
+                       "(ptr [K] >= 0 || ((ptr [K] & 0xFFFF) == 0 && ptr [K] != (-2147483647 - 1))) ==> (%s)" % rule_i, ["C02", "C20"],
                        "C02.int_write_agrees_with_short_write", callargs="a, count, b", src_q="const ", backend="kissat", timeout=900))
         # (b) every sample: the code depends on the 16 most significant bits only (known finding KF5 on the pinned tree)
         u = kunit(law, "i2%s_array" % law, "const int *ptr, int count, unsigned char *buffer", "ptr", "buffer", "int", "unsigned char",
